@@ -41,7 +41,7 @@ PROPS = {
         out="float operands of cat (R6); strings longer than 4 chars; cat of 3+ operands (associativity follows from the fold, not re-proved)",
     ),
     "C06": dict(
-        files=[("op", "c06_op.rs")],
+        files=[("value", "c05_value.rs"), ("op", "c06_op.rs")],
         bounds="every scalar payload; strings <= 2 symbolic chars; containers [], [0], [[]], {}, {a:false}; users with literal operands",
         out="truthiness of values reached through var or produced by operators (interpreter); strings longer than 2",
     ),
